@@ -251,6 +251,9 @@ class SymNP:
         return _map(_abs1, x)
     absolute = abs
 
+    def exp(self, x):
+        return _map(lambda a: a.exp() if hasattr(a, 'exp') and not isinstance(a, (float, int, np.number)) else np.exp(a), x)
+
     def arccos(self, x):
         return _map(lambda a: ang.arccos(a) if isinstance(a, (Q, int, Fraction)) or _ctx_symbolic() else np.arccos(a), x)
 
